@@ -50,7 +50,9 @@ def decode_inter(conv, I):
                                            for x in p.body]] for p in I.productions]}
 
 
-THEOREMS = ["Pfl.PDA.interRegex_lang",
+THEOREMS = ["Pfl.PDA.inter_total",
+            "Pfl.CFG.interD_isSome",
+            "Pfl.PDA.interRegex_lang",
             "Pfl.CFG.interRegex_lang",
             "Pfl.CFG.interD_lang",
             "Pfl.PDA.inter_lang",
